@@ -241,7 +241,8 @@ FinalClauses(ev) ==
            => /\ Ids(queued[e]) \ refused[e] = SuccessIds(sfin[e])
               /\ refused[e] \subseteq Ids(sfin[e])),
     C({"C14"}, "TerminatingEndpointStillCloses",
-        (IsReal(e) /\ TermOnWire(e) /\ scen.idle[e] > 0 /\ scen.flush /\ now >= termT[e] + 1000 * scen.idle[e] + 1000)
+        (IsReal(e) /\ TermOnWire(e) /\ scen.idle[e] > 0 /\ scen.flush
+            /\ now >= Max(termT[e], lastTrafT[e]) + 1000 * scen.idle[e] + 1000)
            => closed[e])
   } \cup TimeClauses(now)
 
@@ -256,7 +257,12 @@ Clauses(ev) ==
     [] ev.a = "View"    -> ViewClauses(ev)
     [] ev.a = "Escape"  -> { CK({"C17", "C07", "C09", "C14"}, "NoExceptionEscapesACallback", ev.i.user,
                                ev.i.kf, TRUE) }
-    [] ev.a = "Cb"      -> TimeClauses(ev.t)
+    [] ev.a = "Cb"      -> TimeClauses(ev.t) \cup
+                           (IF ev.n = "idle" THEN {
+                              C({"C14"}, "IdleTimerFiresOnlyAfterIdleTimeWithoutTraffic",
+                                (scen.idle[ev.e] > 0 /\ scen.flush)
+                                  => ev.t >= Max(lastTrafT[ev.e], estT[ev.e]) + 1000 * scen.idle[ev.e]) }
+                            ELSE {})
     [] ev.a = "Final"   -> FinalClauses(ev)
     [] OTHER -> {}
 
